@@ -68,6 +68,10 @@ def verus_part(out: Outcome, prop: str, decls, tag=None):
             rejected[d.id] = 'macro: ' + (m.group(1)[:200] if m else a.reject_text[-200:])
             continue
         anns.append(a)
+    if prop != 'C02':
+        for i, why in rejected.items():
+            if not by_id[i].expect_reject:
+                out.undecided.append('%s: catalogue declaration is not accepted (%s)' % (i, why[:120]))
     results = pipeline.verus_files(anns, tag, per_file=8, jobs=12)
     ann_by_id = {a.decl.id: a for a in anns}
     failed = {}       # key -> detail
